@@ -29,7 +29,8 @@ TECHNIQUE = "deterministic simulation: frozen peer, bulk read vs single read for
 
 FILLS = [("zero", 0), ("ff", 0), ("bound", 1), ("bound", 2), ("hash", 1), ("hash", 2), ("step", 3), ("step", 4),
          ("sp32a", 1), ("sp32b", 1)]
-HISTORIES = ["plain", "battery_off_on", "battery_on_off", "single_first", "before_info", "settings_first"]
+HISTORIES = ["plain", "battery_off_on", "battery_on_off", "single_first", "before_info", "settings_first",
+             "refused_block_first"]
 REPS = {"quick": 1, "thorough": 12}
 _SPACE = {}
 
@@ -129,7 +130,10 @@ def run_case(case):
             if sid not in bulk:
                 add(f"C16:not-in-bulk:{cls}", f"{fam}/{var}/{tr} {label}: {sid} listed by sensors() but absent from the bulk result")
             elif not same(v, bulk[sid]):
-                add(f"C16:wrong-value:{cls}", f"{fam}/{var}/{tr} {label} fill={case['fill']}: read_sensor({sid!r}) = {v!r}, "
+                kname = cls
+                if fam == "ET" and sid in ("apparent_power2", "apparent_power3"):
+                    kname = cls + ":mppt-window:" + sid   # the bulk value is the truncated one (C14's known findings)
+                add(f"C16:wrong-value:{kname}", f"{fam}/{var}/{tr} {label} fill={case['fill']}: read_sensor({sid!r}) = {v!r}, "
                     f"read_runtime_data reports {bulk[sid]!r}")
             else:
                 stats["equal"] += 1
@@ -149,6 +153,22 @@ def run_case(case):
                 await inv.read_sensor(inv.sensors()[1].id_)
             except (ValueError, ge.InverterError, NotImplementedError):
                 pass
+        if h == "refused_block_first":
+            # single reads of ids whose optional block THIS inverter refuses, before any bulk read had a chance to
+            # notice: listed by sensors() at that moment, so 'unknown sensor' is not an acceptable answer
+            for sn in list(inv.sensors()):
+                n = max(1, (sn.size_ + 1) // 2)
+                if fam != "ES" and sn.size_ > 0 and not dev.is_valid(sn.offset, n):
+                    try:
+                        await inv.read_sensor(sn.id_)
+                    except ValueError as e:
+                        if "nknown" in str(e) and sn.id_ in {x.id_ for x in inv.sensors()}:
+                            add("C16:unknown-sensor:refused-block-before-bulk",
+                                f"{fam}/{var}/{tr}: read_sensor({sn.id_!r}) raised {e!r} while sensors() lists the id "
+                                f"(its block is refused by this inverter and no bulk read has pruned the list yet)")
+                            break
+                    except Exception:  # noqa
+                        pass
         if h == "settings_first":
             # ids that exist both as sensor and as setting (work_mode, battery_modules, ...) are read as SETTING first
             sens = {x.id_ for x in inv.sensors()}
